@@ -96,7 +96,7 @@ MORE = {
     "C13": " 30+ blocking situations, each cancelled at once and after a 2.6 s stall; also: the pipe's path removed or replaced while waiting for a writer, an event still being assembled (flushed before Read returns), the worker inside the event write, the flush on the way out with a failing output, 1 500 lines queued behind a write in progress (the queue is left alone).",
     "C14": " L2 leg against aucoalesce's own view of the same records; record groups include CONFIG_CHANGE-first events and a rename over an existing target (five PATH records, PARENT entries).",
     "C15": " Delivery modes: stepwise, as a backlog in a buffered channel, and with the failure reported while Read is busy in RemoteLogin; malformed-line classes; persistent output failures; a sample of three-event scenarios; the audit-log ingester with a full line channel loses no line (worker scenario sendingthrough, PipelineTrace).",
-    "C16": " Histories with 24 / 40 sessions or logins in ONE cleanup pass (all stale, all correlated, half and half). Staleness.tla models the ticker phase against arrival times; the thorough tier runs Auditd.Read in real time (its own one-minute ticker, filler logins) and validates the runs with StalenessTrace.tla.",
+    "C16": " Histories with 24 / 40 sessions or logins in ONE cleanup pass (all stale, all correlated, half and half). Staleness.tla models the ticker phase against arrival times; the thorough tier runs Auditd.Read in real time (its own one-minute ticker; with filler logins and on a quiet host) and validates the runs with StalenessTrace.tla.",
     "C17": " Names imitating whole other messages, grammar-fragment walks, [preauth] suffixes and phrases of unhandled sshd messages; also on one long-lived processor.",
     "C18": " A probe request after the last thread of every program (an answer computed during the concurrent part must not outlive it); writing the status line and the body are scheduling points; 210 WaitForReady scripts incl. registrations after the wait started and re-registration after 'seen ready', each followed by a second wait on the same object; waits whose context was cancelled before they started.",
     "C19": " Counters are read from a fresh registry per line AND from one long-lived registry for the whole run (StreamCounter, repeats, twins), every third record with the package logger at debug level; the 54 worker scripts of SshdProc log the counter (CountedOnce: an emitted event is counted exactly once whether the hand-off completed or was abandoned).",
